@@ -25,6 +25,42 @@ HEADER_WRITERS = {S + "write_record", "agdb::storage::StorageData::write", S + "
                   S + "update_record"}
 
 
+def reader_rule(ctx):
+    """R04b (shared with C05): value reads are validated; raw storage bytes are read only by the frozen readers."""
+    fa = ctx.facts
+    b = ctx.anchor("R04b", S + "value_as_bytes_at_size")
+    if b:
+        rd = [i for i, t in cfg.calls(b) if cfg.callee_decl(t) == "agdb::storage::StorageData::read"]
+        val = cfg.call_blocks(b, [S + "validate_read_size"])
+        cut = set()
+        for i in val:
+            for te in cfg.try_edges(b, cfg.derived_locals(b, [b.blocks[i]["term"]["d"][0]])):
+                if te["ok_edge"]:
+                    cut.add(te["ok_edge"])
+        ok = bool(rd) and bool(cut) and cfg.find_path(b, [0], rd, removed_edges=cut) is None
+        ctx.ob("R04b", "value_as_bytes_at_size", ok,
+               "StorageData::read reachable only through validate_read_size(..)?" if ok else
+               "StorageData::read reachable without a successful validate_read_size", b.where)
+        # every reader of record data goes through it
+        readers = []
+        where = {}
+        for fb in fa.find(r"^agdb::storage::Storage::"):
+            if [1 for i, t in cfg.calls(fb) if cfg.callee_decl(t) == "agdb::storage::StorageData::read"]:
+                readers.append(common.norm(fb.npath))
+                where[common.norm(fb.npath)] = fb.where
+        allowed = {S + "value_as_bytes_at_size": "validated by validate_read_size (above)",
+                   S + "read_record": "fixed-size header read at a position read_records bounds by the file length",
+                   S + "read_value": "whole value of a record taken from the validated table",
+                   S + "enlarge_move_to": "whole value of a record taken from the validated table",
+                   S + "validate_or_update_version": "legacy (pre-0.11) content read bounded by self.len()"}
+        for r in sorted(readers):
+            ctx.ob("R04b", "reader:" + r, r in allowed,
+                   "reads through: " + allowed.get(r, "") if r in allowed else
+                   "`%s` reads raw storage bytes but is not in the frozen reader table (every reader of record data is listed with "
+                   "the reason its range is inside the record; a new one must be reviewed: bounds, and for a relocation "
+                   "that the source is read completely before the destination is written)" % r, where.get(r, ""))
+
+
 def optimize_rule(ctx):
     """R04c (shared with C32): the compaction pass is one storage transaction that ends with truncate + clear_free."""
     fa = ctx.facts
@@ -57,7 +93,7 @@ def optimize_rule(ctx):
         # far: a half-packed file has stale headers between the packed and the unpacked part and cannot be scanned)
         loops = cfg.sccs(b)
         in_loop = [i for i in opens + closes if any(i in c for c in loops)]
-        moves = cfg.call_blocks(b, [S + "shrink_index"])
+        moves = common.call_blocks_reaching(fa, b, [S + "shrink_index"])     # directly or through a helper
         ok1 = bool(moves) and len(opens) == 1 and not in_loop and \
             cfg.find_path(b, [0], moves, avoid=opens) is None and \
             all(cfg.find_path(b, closes, [m], leave_start=True) is None for m in moves)
@@ -90,33 +126,7 @@ def run(ctx):
                    key="%s|R04a|%s|%s" % (ctx.pid, common.norm(b.npath), cfg.callee(b.blocks[m]["term"]).split("::")[-1]))
     ctx.floor("R04a", "Storage functions mutating the record table", n, 8)
 
-    b = ctx.anchor("R04b", S + "value_as_bytes_at_size")
-    if b:
-        rd = [i for i, t in cfg.calls(b) if cfg.callee_decl(t) == "agdb::storage::StorageData::read"]
-        val = cfg.call_blocks(b, [S + "validate_read_size"])
-        cut = set()
-        for i in val:
-            for te in cfg.try_edges(b, cfg.derived_locals(b, [b.blocks[i]["term"]["d"][0]])):
-                if te["ok_edge"]:
-                    cut.add(te["ok_edge"])
-        ok = bool(rd) and bool(cut) and cfg.find_path(b, [0], rd, removed_edges=cut) is None
-        ctx.ob("R04b", "value_as_bytes_at_size", ok,
-               "StorageData::read reachable only through validate_read_size(..)?" if ok else
-               "StorageData::read reachable without a successful validate_read_size", b.where)
-        # every reader of record data goes through it
-        readers = []
-        for fb in fa.find(r"^agdb::storage::Storage::"):
-            if [1 for i, t in cfg.calls(fb) if cfg.callee_decl(t) == "agdb::storage::StorageData::read"]:
-                readers.append(common.norm(fb.npath))
-        allowed = {S + "value_as_bytes_at_size": "validated by validate_read_size (above)",
-                   S + "read_record": "fixed-size header read at a position read_records bounds by the file length",
-                   S + "read_value": "whole value of a record taken from the validated table",
-                   S + "enlarge_move_to": "whole value of a record taken from the validated table",
-                   S + "validate_or_update_version": "legacy (pre-0.11) content read bounded by self.len()"}
-        for r in sorted(readers):
-            ctx.ob("R04b", "reader:" + r, r in allowed,
-                   "reads through: " + allowed.get(r, "") if r in allowed else
-                   "`%s` reads raw storage bytes but is not in the frozen reader table" % r)
+    reader_rule(ctx)
 
     # R04d: the left-over of a consumed free region always gets its own (free) header: the header chain is scanned
     # sequentially on reopen, so a header-less gap - however small - makes the rest of the file unreadable.  The
